@@ -47,7 +47,7 @@ def gen_family(rng, n_roots=(1, 3), n_cond=(2, 8), n_rdm=(1, 4)):
                 'rdm_desc': {'grp': gen.gen_grouping(rng, nr, typ=rtyp),
                              **({'wgt': {'values': [1.0 + 0.5 * i for i in range(nr)], 'container': 'array'}} if wgt else {}),
                              'extra': {'values': ['x%d' % u for u in ru], 'container': rng.pick(['list', 'array'])}},
-                'pat_desc': pat_desc, 'nan_cells': [], 'order': 'F' if rng.chance(0.2) else 'C'}
+                'pat_desc': pat_desc, 'nan_cells': [], 'order': rng.pick(['F', 'S', 'Q']) if rng.chance(0.3) else 'C'}
         if rng.chance(0.25) and nc >= 4:
             i, j = sorted(rng.sample(range(nc), 2))
             spec['nan_cells'].append([rng.randrange(nr), i, j])
